@@ -70,6 +70,19 @@ static ep_t R, R2, T;
 static bn_t N, H, K;
 static uint8_t msg[1 << 16], dstb[1024], other[64];
 
+#if defined(WITH_EPX)
+static void pick_twist(void) {
+	ep2_t g, f; bn_t pp;
+	ep2_null(g); ep2_null(f); bn_null(pp); ep2_new(g); ep2_new(f); bn_new(pp);
+	ep2_curve_set_twist(RLC_EP_DTYPE);
+	ep2_curve_get_gen(g);
+	pp->used = RLC_FP_DIGS; pp->sign = RLC_POS; dv_copy(pp->dp, fp_prime_get(), RLC_FP_DIGS);
+	ep2_frb(f, g, 1); ep2_mul_basic(g, g, pp);
+	if (ep2_cmp(f, g) != RLC_EQ) ep2_curve_set_twist(RLC_EP_MTYPE);
+	ep2_free(g); ep2_free(f); bn_free(pp);
+}
+#endif
+
 static int set_curve(const char *spec) {
 	int err = 0, code;
 	if (strcmp(spec, cur_curve) == 0) return cur_ok;
@@ -86,6 +99,18 @@ static int set_curve(const char *spec) {
 		VH_TRY(err, r = ep_param_set_any_pairf());
 		code = vh_code();
 		cur_ok = (err == 0) && (code == 0) && (r == RLC_OK) && ep2_curve_is_twist();
+#endif
+	} else if (spec[0] == 'p' && spec[1] == 'f') {
+#if defined(WITH_EPX)
+		/* a pairing-friendly set by id; the twist type is the caller's knowledge: take the one under which the
+		 * Frobenius endomorphism acts on the generator as multiplication by p (selection only, not a verdict) */
+		VH_TRY(err, ep_param_set(atoi(spec + 2)));
+		code = vh_code();
+		if (err == 0 && code == 0 && ep_curve_is_pairf() && ep_curve_embed() == 12) {
+			VH_TRY(err, pick_twist());
+			code = vh_code();
+			cur_ok = (err == 0) && (code == 0) && ep2_curve_is_twist();
+		}
 #endif
 	} else if (strcmp(spec, "ed") == 0) {
 #if defined(WITH_ED)
